@@ -83,7 +83,7 @@ def gen(rng, tier):
             'fourier': rng.random() < 0.85, 'nthread': rng.choice([1, 2, 3, 4, 5, 8, 16]),
             'sched': gen_sched(rng), 'compiled': rng.random() < 0.25,
             'prev_nthread': rng.choice([None, 1, 2, 5, 16]),
-            'huge': None}
+            'huge': None, 'layout': rng.choice(['C', 'C', 'C', 'fortran', 'strided', 'readonly'])}
 
 
 def sweep(tier):
@@ -266,7 +266,7 @@ def run(case):
     from e1_threads.sched import SIM
     out = new_outcome()
     n = case['n']
-    w = _weights(case)
+    w = H.with_layout(_weights(case), case.get('layout', 'C'))
     if case['which'] == 'kmu':
         ref = moderef.bin_kmu_ref(n, case['L'], case['kedges'], case['muedges'], w, case['poles'], case['fourier'])
         site = 'bin_kmu'
